@@ -167,6 +167,12 @@ type EqIn struct {
 	Inlined  string     `json:"inlined,omitempty"`
 	Data     []string   `json:"data,omitempty"`
 	EnvFuncs bool       `json:"env_funcs,omitempty"` // pass the funcs file through RARE_FUNC_FILES instead of --funcs
+	// kind "seq": whole evaluation sequences on ONE compiled expression. Every pass is a list of indices
+	// into Ctxs; for every pass the template is compiled once by the optimising and once by the plain
+	// builder and evaluated step by step; with Stateless also by a fresh compile per step (the value of
+	// an expression on a context must not depend on earlier evaluations)
+	Passes    [][]int `json:"passes,omitempty"`
+	Stateless bool    `json:"stateless,omitempty"`
 }
 type Row struct {
 	Opt, Plain, Inl string
@@ -554,6 +560,9 @@ func runEq(e *EqIn) [][]string {
 	if e.Kind == "cli" {
 		return runEqCli(e)
 	}
+	if e.Kind == "seq" {
+		return runEqSeq(e)
+	}
 	return runEqLib(e)
 }
 
@@ -632,6 +641,109 @@ func (g *gen) eqLibCases() []Case {
 	return cases
 }
 
+
+
+func runEqSeq(e *EqIn) (groups [][]string) {
+	fail := func(msg string) [][]string { return [][]string{{"\x01" + msg, ""}} }
+	compile := func(opt bool) *expressions.CompiledKeyBuilder {
+		loadMu.Lock()
+		defer loadMu.Unlock()
+		funclib.Additional = make(funclib.FunctionSet)
+		k, _ := funclib.NewKeyBuilderEx(opt).Compile(e.Tmpl)
+		return k
+	}
+	p := guarded(func() {
+		for _, pass := range e.Passes {
+			kO, kP := compile(true), compile(false)
+			for _, i := range pass {
+				if i < 0 || i >= len(e.Ctxs) {
+					continue
+				}
+				c := e.Ctxs[i]
+				a, _ := evalCount(kO, c)
+				b, _ := evalCount(kP, c)
+				g := []string{a, b}
+				if e.Stateless {
+					f1, _ := evalCount(compile(false), c)
+					f2, _ := evalCount(compile(true), c)
+					g = append(g, f1, f2)
+				}
+				groups = append(groups, g)
+			}
+		}
+	})
+	if p != "" {
+		return fail(p)
+	}
+	return
+}
+
+// sequences of evaluations on one compiled expression: the first evaluation on the context the
+// optimiser probes with (empty / missing groups), unparseable values, the same value on consecutive
+// evaluations, the same values in another order
+func (g *gen) eqSeqCases() []Case {
+	r := g.r
+	day := fmt.Sprintf("20%02d-%02d-%02d", r.Range(10, 30), r.Range(1, 12), r.Range(1, 28))
+	clock := func() string { return fmt.Sprintf("%02d:%02d:%02d", r.Range(0, 23), r.Range(0, 59), r.Range(0, 59)) }
+	c1, c2 := clock(), clock()
+	nginx := func() string { return fmt.Sprintf("%d/Mar/20%02d:%s +0000", r.Range(1, 28), r.Range(10, 30), clock()) }
+	unix1, unix2 := fmt.Sprint(r.Range(1000000000, 1900000000)), fmt.Sprint(r.Range(1000000000, 1900000000))
+	type tc struct {
+		tmpl      string
+		good      [2]string // two values that parse
+		bad       string    // a value that does not
+		stateless bool
+	}
+	full := `"2006-01-02 15:04:05"`
+	list := []tc{
+		{`{time {0} ` + full + `}`, [2]string{day + " " + c1, day + " " + c2}, "garbage", true},
+		{`{time {0} NGINX}`, [2]string{nginx(), nginx()}, "12/Foo/2020", true},
+		{`{time {0} RFC3339 utc}`, [2]string{day + "T" + c1 + "Z", day + "T" + c2 + "Z"}, day, true},
+		{`{time "` + day + ` {0}" ` + full + `}`, [2]string{c1, c2}, "25:61:00", true},
+		{`{time "` + day + ` {0}" ` + full + ` local}`, [2]string{c1, c2}, "x", true},
+		{`{time {k1} RFC3339}`, [2]string{day + "T" + c1 + "Z", day + "T" + c2 + "Z"}, "nope", true},
+		{`{buckettime {0} day ` + full + `}`, [2]string{day + " " + c1, day + " " + c2}, "garbage", true},
+		{`{buckettime "` + day + ` {0}" hour ` + full + ` utc}`, [2]string{c1, c2}, "??", true},
+		{`{timeformat {time {0} ` + full + `} "15:04" utc}`, [2]string{day + " " + c1, day + " " + c2}, "bad", true},
+		{`x{sumi {time {0} ` + full + `} 1}y`, [2]string{day + " " + c1, day + " " + c2}, "bad", true},
+		{`{timeformat {0} RFC3339 utc}`, [2]string{unix1, unix2}, "1e9", true},
+		{`{timeattr {0} weekday utc}-{timeattr {0} quarter}`, [2]string{unix1, unix2}, "z", true},
+		{`{duration {0}}|{durationformat {0}}`, [2]string{"90s", "3600"}, "1x", true},
+		{`{sumf {0} 1.5}|{json {0} a}|{format %5s {0}}|{sumi {0} 1}|{hi {0}}`, [2]string{"41", `{"a":5}`}, "--", true},
+		{`{time {0} auto}`, [2]string{day + " " + c1, day + "T" + c2 + "Z"}, "garbage", true},
+		// auto-detected layout: remembered by design, so only optimising = plain on the same sequence
+		{`{time {0}}`, [2]string{day + " " + c1, day + " " + c2}, "garbage", false},
+		{`{time "` + day + ` {0}"}`, [2]string{c1, c2}, "25:61:00", false},
+		{`{buckettime {0} minute}`, [2]string{day + " " + c1, day + " " + c2}, "garbage", false},
+	}
+	var cases []Case
+	for _, t := range list {
+		ctx := func(v string) Ctx { return Ctx{M: []string{v}, K: map[string]string{"k1": v}} }
+		ctxs := []Ctx{
+			{M: []string{}, K: map[string]string{}}, // 0: all-empty (what the optimiser probes with)
+			ctx(""),                                 // 1: the group is there but empty
+			ctx(t.good[0]),                          // 2
+			ctx(t.good[1]),                          // 3
+			ctx(t.bad),                              // 4
+		}
+		// pass 1: the probe's value first, repeats of good and bad values; pass 2: a bad value first, twice;
+		// pass 3: a seeded shuffle of the same multiset
+		p1 := []int{0, 2, 0, 3, 4, 4, 2, 2, 1, 1, 3}
+		p2 := []int{4, 4, 1, 0, 3, 3, 2, 4, 2}
+		p3 := append([]int{}, p1...)
+		for i := len(p3) - 1; i > 0; i-- {
+			j := r.Intn(i + 1)
+			p3[i], p3[j] = p3[j], p3[i]
+		}
+		e := &EqIn{Kind: "seq", Tmpl: t.tmpl, Ctxs: ctxs, Passes: [][]int{p1, p2, p3}, Stateless: t.stateless}
+		tags := []string{"sequence"}
+		if t.stateless {
+			tags = append(tags, "sequence-stateless")
+		}
+		cases = append(cases, mkEqCase(e, runEq(e), tags))
+	}
+	return cases
+}
 
 // funcs-file functions whose body reaches a stage that remembers what it saw (time / buckettime with an
 // auto-detected layout) or other time helpers, called with arguments mixing constant text and captures:
@@ -1377,6 +1489,7 @@ func c10Gen(r *Rng, n int, tier string) []Case {
 		nTimed = 40
 	}
 	cases = append(cases, g.eqLibCases()...)
+	cases = append(cases, g.eqSeqCases()...)
 	cases = append(cases, g.eqFnTimeCases()...)
 	cases = append(cases, g.eqCliCases()...)
 	if rareBin != "" {
@@ -1411,6 +1524,7 @@ func main() {
 			"every template is compiled by funclib.NewKeyBuilderEx(true) and (false) and evaluated on 1-3 generated contexts plus the all-empty context with a look-up-counting context, then 3 rounds from each of 1-8 goroutines sharing the compiled expressions; " +
 			"timed cases ({time now|live|delta} plain, nested, inside a funcs-file function, inside @map) are evaluated twice 1.1 s apart and only 'did the value change' is observed. " +
 			"equality-only cases (no model prediction): 30 templates over helpers that are not modelled (time with auto-detected / given formats, buckettime, timeformat, durations, floats, format, @split/@join/@slice/@select/@range, paths, json, !, byte sizes, repeat/bar/color, lookup/load) with constant, dynamic and mixed text in the arguments and seeded dates/numbers: optimising builder = plain builder on every context, the all-empty one last; " +
+			"18 sequence cases (time / buckettime / timeformat / timeattr with explicit format and time-zone arguments, named formats, a constant prefix plus a capture, a named key, nested in sumi/timeformat, durations, floats/json/format; 3 with the auto-detected layout): three evaluation sequences per template on ONE compiled expression - the all-empty context (the optimiser's probe value) first, unparseable values, the same value on consecutive evaluations, a bad value first, a seeded shuffle - step by step: optimising = plain = a fresh plain compile = a fresh optimising compile of that step (for the auto-detected layout, which is remembered by design, only optimising = plain); " +
 			"11 funcs-file cases whose body reaches time/buckettime (auto-detected layout, remembered by the stage), timeformat, timeattr, duration through {i}, a later definition calling an earlier one, called with arguments mixing constant text and captures: call (optimising, plain) = inlined body (optimising, plain) on every context, every builder compiled freshly; " +
 			"11 command-line cases: the rare binary built from $VERIF_REPO, a generated functions file (random layout) whose body has an argument-free sub-expression governed by a global switch ({hi ..} {hf ..} --noformat, {color ..} --color/--nocolor, {bar ..} --nounicode, {load ..} --noload), `rare <switch> --funcs F expression <call>`, the same with --no-optimize, and `rare <switch> expression <inlined body>` with and without --no-optimize (one case through RARE_FUNC_FILES): the four stdout+exit-code strings must be equal. " +
 			"distinct = distinct (functions file, template, contexts); non-trivial = a helper call mixing constant and dynamic arguments, a funcs-file call, a binder, a malformed functions file or a timed case.",
